@@ -118,8 +118,8 @@ def build_model():
             shutil.copy(src, os.path.join(OCAML, "model.ml"))
             shutil.copy(src + "i", os.path.join(OCAML, "model.mli"))
             # build beside the old binary and rename over it: a check that is running the old one keeps its inode
-            rc, out = sh("ocamlfind ocamlopt -w -a model.mli model.ml driver.ml -o tdfmodel.new && mv -f tdfmodel.new tdfmodel",
-                         600, cwd=OCAML)
+            rc, out = sh("ocamlfind ocamlopt -w -a model.mli model.ml driver.ml -o tdfmodel.%d && mv -f tdfmodel.%d tdfmodel"
+                         % (os.getpid(), os.getpid()), 600, cwd=OCAML)
             if rc != 0:
                 return False, out[-3000:]
         return True, ""
